@@ -645,6 +645,9 @@ class DynamicBayesianNetwork(DAG):
         self.check_model()
         for cpd in self.cpds:
             temp_var = DynamicNode(cpd.variable[0], 1 - cpd.variable[1])
+            # Nothing to complete for a variable that has no node in the other slice.
+            if temp_var not in super(DynamicBayesianNetwork, self).nodes():
+                continue
             parents = self.get_parents(temp_var)
             if not any(x.variable == temp_var for x in self.cpds):
                 if all(x[1] == parents[0][1] for x in parents):
